@@ -152,6 +152,10 @@ func Open(sr *io.SectionReader, opt ...OpenOption) (*Reader, error) {
 		if tocOffset >= 0 && tocSize <= 0 {
 			tocSize = sr.Size() - tocOffset - fSize
 		}
+		if tocSize < 0 || tocSize > sr.Size() {
+			allErr = append(allErr, fmt.Errorf("invalid TOC size %d for the blob of size %d", tocSize, sr.Size()))
+			continue
+		}
 		if tocOffset >= 0 && tocSize < int64(len(maybeTocBytes)) {
 			maybeTocBytes = maybeTocBytes[:tocSize]
 		}
